@@ -99,6 +99,7 @@ func encodeFixedLengthFormat(ctx context.Context, fp io.Writer, view *View, opti
 	if options.DelimiterPositions == nil {
 		m := fixedlen.NewMeasure()
 		m.Encoding = options.Encoding
+		var err error
 
 		var fieldList [][]fixedlen.Field = nil
 		var recordStartPos = 0
@@ -115,7 +116,9 @@ func encodeFixedLengthFormat(ctx context.Context, fp io.Writer, view *View, opti
 
 			fields := make([]fixedlen.Field, fieldLen)
 			for i := range view.Header {
-				fields[i] = fixedlen.NewField(view.Header[i].Column, text.NotAligned)
+				if fields[i], err = newFixedLengthField(view.Header[i].Column, text.NotAligned); err != nil {
+					return err
+				}
 			}
 			fieldList[0] = fields
 			m.Measure(fields)
@@ -129,7 +132,9 @@ func encodeFixedLengthFormat(ctx context.Context, fp io.Writer, view *View, opti
 			fields := make([]fixedlen.Field, fieldLen)
 			for j := range view.RecordSet[i] {
 				str, _, a := ConvertFieldContents(view.RecordSet[i][j][0], false, options.ScientificNotation)
-				fields[j] = fixedlen.NewField(str, a)
+				if fields[j], err = newFixedLengthField(str, a); err != nil {
+					return err
+				}
 			}
 			fieldList[i+recordStartPos] = fields
 			m.Measure(fields)
@@ -169,7 +174,9 @@ func encodeFixedLengthFormat(ctx context.Context, fp io.Writer, view *View, opti
 			}
 		} else if !options.SingleLine {
 			for i := range view.Header {
-				fields[i] = fixedlen.NewField(view.Header[i].Column, text.NotAligned)
+				if fields[i], err = newFixedLengthField(view.Header[i].Column, text.NotAligned); err != nil {
+					return err
+				}
 			}
 			if err := w.Write(fields); err != nil {
 				return NewDataEncodingError(err.Error())
@@ -183,7 +190,9 @@ func encodeFixedLengthFormat(ctx context.Context, fp io.Writer, view *View, opti
 
 			for j := range view.RecordSet[i] {
 				str, _, a := ConvertFieldContents(view.RecordSet[i][j][0], false, options.ScientificNotation)
-				fields[j] = fixedlen.NewField(str, a)
+				if fields[j], err = newFixedLengthField(str, a); err != nil {
+					return err
+				}
 			}
 			if err := w.Write(fields); err != nil {
 				return NewDataEncodingError(err.Error())
@@ -194,6 +203,14 @@ func encodeFixedLengthFormat(ctx context.Context, fp io.Writer, view *View, opti
 		}
 	}
 	return nil
+}
+
+// A field of the fixed-length format cannot contain a line break: the reader would end the record there.
+func newFixedLengthField(s string, alignment text.FieldAlignment) (fixedlen.Field, error) {
+	if strings.ContainsAny(s, "\r\n") {
+		return fixedlen.Field{}, NewDataEncodingError(fmt.Sprintf("value cannot contain line breaks in fixed-length format: %q", s))
+	}
+	return fixedlen.NewField(s, alignment), nil
 }
 
 func encodeJson(ctx context.Context, fp io.Writer, view *View, options option.ExportOptions, palette *color.Palette) error {
